@@ -39,9 +39,12 @@ fn cmd_gen(a: &Args) -> i32 {
         let mut vals: Vec<J> = vec![];
         for _ in 0..nv {
             let v = value_for(&mut rng, &w, &env, 3);
-            if !vals.contains(&v) {
+            if json_depth(&v) <= 60 && !vals.contains(&v) {
                 vals.push(v);
             }
+        }
+        if vals.is_empty() || json_depth(&r) > 60 {
+            continue;
         }
         writeln!(out, "{}", json!({"W": w, "R": r, "hist": hist, "vals": vals})).unwrap();
         made += 1;
